@@ -88,6 +88,32 @@ def gen(ctx):
                     cf["limit"] = lim
                 c = L.conf(emb=cf["emb"], mime=cf["mime"], file=cf["file"], norp=cf["norp"], limit=lim, fileack=cf["fileack"], rperr=cf["rperr"])
                 items.append((L.Sched(conf=c, labels=labels, note=f"{src} size={size} limit={limit}"), cf))
+    # several loads on one connection: what one song lacked must not be remembered for the next; other callers give up while queued
+    for _ in range(6 if ctx.tier == "quick" else 60):
+        emb, fil = picture(rng, rng.choice([5, 20, 33])), picture(rng, rng.choice([7, 16]))
+        limit = rng.choice([4, 8, 64])
+        cf = {"emb": emb, "mime": b"image/png", "file": fil, "norp": False, "limit": limit, "fileack": False, "rperr": None,
+              "multi": [("noemb-first.mp3", f"art:some({hexs(fil)},~)"), (URI, f"art:some({hexs(emb)},{hexs(b'image/png')})"),
+                        ("noemb-again.mp3", f"art:some({hexs(fil)},~)"), ("tagged.flac", f"art:some({hexs(emb)},{hexs(b'image/png')})")]}
+        labels = ["D0"]
+        for i, (uri, _) in enumerate(cf["multi"]):
+            labels += [f"a{i + 1}:" + hexs(uri)]
+            if rng.random() < 0.5:
+                labels += [f"c{50 + i}:" + L.spec("echo", f"o{i}"), f"x{50 + i}"]        # a caller that gives up while queued
+            labels += ["S*", "D0"] * (max(len(emb), len(fil)) // limit + 6)
+        labels += L.flush(4)
+        c = L.conf(emb=emb, mime=b"image/png", file=fil, limit=limit)
+        items.append((L.Sched(conf=c, labels=labels, note=f"four loads on one connection, limit {limit}"), cf))
+    # the connection ends while a later chunk is outstanding: the caller must get the failure, not "no album art" and not a truncated picture
+    for fault in ("e", "cut", "G:" + hexs(b"what\n"), "r"):
+        for src in ("emb+mime", "file"):
+            pic = picture(rng, 40)
+            cf = {"emb": pic if src != "file" else None, "mime": b"image/png" if src != "file" else None, "file": pic if src == "file" else None,
+                  "norp": False, "limit": 8, "fileack": False, "rperr": None, "fault": fault}
+            labels = ["D0", "a1:" + hexs(URI)] + ["S*", "D0"] * rng.choice([3, 4, 5])
+            labels += {"e": ["e"], "cut": ["S*", "D5", "e"], "r": ["r"]}.get(fault, [fault]) + ["t200", "e", "t200"]
+            c = L.conf(emb=cf["emb"], mime=cf["mime"], file=cf["file"], limit=8)
+            items.append((L.Sched(conf=c, labels=labels, note=f"{src} 40 bytes limit 8, connection ends mid-transfer ({fault[:1]})"), cf))
     return items
 
 
@@ -104,7 +130,16 @@ def run(ctx, only=None):
         v = []
         if t.panic:
             v.append("panic: " + r["impl_raw"][:300])
-        if cf:
+        if cf and cf.get("multi"):
+            for i, (uri, exp) in enumerate(cf["multi"]):
+                got = t.results().get(i + 1, (None, "<never resolved>"))[1]
+                if got != exp:
+                    v.append(f"load {i + 1} ({uri}) returned {got[:120]}; the server holds {exp[:120]} for it ({s.note})")
+        elif cf and cf.get("fault"):
+            got = t.results().get(1, (None, "<never resolved>"))[1]
+            if not (got == "closed" or got.startswith("proto:")):
+                v.append(f"the connection ended in the middle of the transfer, but album_art returned {got[:120]} instead of the failure ({s.note})")
+        elif cf:
             exp = expected(cf)
             got = t.results().get(1, (None, "<never resolved>"))[1]
             if got != exp:
